@@ -202,7 +202,7 @@ def real_arm(c, allb, per_w, variants):
 def selftest(c, k, behs):
     """binding self-test: tell the replayer a wrong WorkerCount; it must object to the first deployment"""
     behs = [b for b in behs if any(s["a"] == "StartAssembly" for s in b)][:3]
-    payload = dict(property="C15-selftest", seed=c.seed, config=dict(k, W=k["W"] + 1, Boot=0 if k["Boot"] < k["W"] + 1 else k["Boot"], mode="fake", SelfTest=True), behaviours=behs)
+    payload = dict(property="C15-selftest", seed=c.seed, config=dict(k, CheckW=k["W"] + 1, mode="fake"), behaviours=behs)
     res = vlib.run_harness("membership", payload)
     if not res.get("violations"):
         c.errors.append("self-test: the replayer accepted deployments to %d nodes per kind when told WorkerCount is %d" % (k["W"], k["W"] + 1))
